@@ -54,6 +54,7 @@ def main():
     ap.add_argument("--jobs", default="8")
     ap.add_argument("--own-only", action="store_true", help="check only the property named in meta.json")
     ap.add_argument("--thorough", action="store_true")
+    ap.add_argument("--redo", action="store_true", help="re-run seeds that already have a result")
     ap.add_argument("--all-anchored", action="store_true", help="run every obligation anchored in a patched file, not only those naming a patched function")
     a = ap.parse_args()
     path = os.path.join(VERIF, "selftest", "results.json")
@@ -75,6 +76,8 @@ def main():
             if a.only and a.only != name:
                 continue
             meta = json.load(open(os.path.join(os.path.dirname(d), "meta.json")))
+            if ("seeded/" + name) in results and not a.redo and not a.only:
+                continue
             # run every obligation anchored in a patched file once (pseudo-property ALL), then attribute each failed check to
             # properties exactly as a per-property run would (tags, C02 class filter); fall back to the seed's own property.
             patched = set(l[6:].strip() for l in open(d) if l.startswith("+++ b/"))
@@ -118,12 +121,13 @@ def main():
                 narrowed = [o for o in obs if any(_re.search(r"\b%s\b" % _re.escape(t), " ".join(o["fns"])) for t in toks)]
                 if narrowed:
                     obs = narrowed
+            extra = meta.get("obligations_elsewhere", [])  # obligations anchored in another file that exercise the patched code
+            obs += [o for o in registry.OBLIGATIONS if o["id"] in extra and o not in obs]
             if not obs:
-                r = run_with_patch(d, [meta["property"]], a.jobs)
-                caught = [p for p, v in r.items() if v["exit"] == 1]
-                results["seeded/" + name] = {"expected": "exit 1 for " + meta["property"], "caught_by": caught, "failing_obligations": [],
-                                             "note": "no obligation is anchored in the patched files; own property run", "runs": r}
-                print("seeded", name, "CAUGHT by " + ",".join(caught) if caught else "MISSED (no obligation in patched files)")
+                results["seeded/" + name] = {"expected": "exit 1 for " + meta["property"], "caught_by": [], "failing_obligations": [],
+                                             "note": "no registered obligation reaches the patched code (outside every function core)"}
+                print("seeded", name, "MISSED (no obligation reaches the patched code)")
+                json.dump(results, open(path, "w"), indent=1)
                 continue
             wt = tempfile.mkdtemp(prefix="stest."); os.rmdir(wt)
             subprocess.check_call(["git", "-C", "/repo", "worktree", "add", "-q", "--detach", wt, "HEAD"])
@@ -160,6 +164,7 @@ def main():
                                          "caught_in_quick_tier": sorted(p for p, v in by_prop.items() if v["quick"]),
                                          "failing_obligations": sorted(set(failing)), "undecided": und,
                                          "obligations_run": len(obs), "tier": tier}
+            json.dump(results, open(path, "w"), indent=1)
             own = meta["property"]
             print("seeded", name, ("CAUGHT own=%s by %s via %s" % (own in caught, ",".join(caught), ",".join(sorted(set(failing))[:4]))) if caught else "MISSED",
                   "exit", rr.returncode, und[:2])
